@@ -272,12 +272,12 @@ def bsizeK (B : ShapeK) (sizes : List SizeK) : SizeK :=
 
 def broadcastShapeK3 (a b c : ShapeK) : Option ShapeK := (broadcastShapeK a b).bind (fun k => broadcastShapeK k c)
 
-/-- decorator default for a view over a TUPLE of operands (decorator.hpp:1125-1137, 1193-1205): fixed / bounded size =
-    SUM of the operands' sizes unless the shape type is constant.  `o` = the (common) knowledge of one broadcast operand -/
+/-- after fix C11-where-size-of-broadcast-operand: fixed / bounded size of the view = those of ONE broadcast operand
+    (view/where.hpp).  `o` = the (common) knowledge of one broadcast operand -/
 def whereInfo (B : ShapeK) (o : SizeK) : SInfo :=
   ⟨B, match B with
     | .const l => .known (prod l)
-    | _ => match o with | .known n => .known (3 * n) | .atMost n => .atMost (3 * n) | _ => .any⟩
+    | _ => match o with | .known n => .known n | .atMost n => .atMost n | _ => .any⟩
 
 def transferWhere (i j k : SInfo) : Option SInfo :=
   (broadcastShapeK3 i.seen.shape j.seen.shape k.seen.shape).map (fun B =>
